@@ -71,7 +71,12 @@ pub fn goal_ok(g: &G, scope: &[VarIx], dfs: bool, p: &Program) -> bool {
         }
         G::Project(vs, gs) => vs.iter().all(|v| scope.contains(v)) && goals_ok(gs, scope, dfs, p),
         G::Prim(_, a, b) => t(a) && t(b),
-        G::Dom(x, vals) => t(x) && !vals.is_empty() && (fd_operand(x) || is_proper_list(x)),
+        G::Dom(x, vals) => {
+            // strictly increasing: unsorted or duplicated value lists are C18's business
+            t(x) && !vals.is_empty()
+                && vals.windows(2).all(|w| w[0] < w[1])
+                && (fd_operand(x) || is_proper_list(x))
+        }
         G::DomRange(x, lo, hi) => t(x) && lo <= hi && (fd_operand(x) || is_proper_list(x)),
         G::Ltefd(a, b) | G::Ltfd(a, b) | G::Diseqfd(a, b) => {
             t(a) && t(b) && fd_operand(a) && fd_operand(b)
